@@ -153,3 +153,18 @@ def seed() -> int:
         return int(os.environ.get("VERIF_SEED", "0"))
     except ValueError:
         return 0
+
+
+class Listed(list):
+    """What inv.sensors() / inv.settings() returned; `.error` is set (and the list empty) if the call raised."""
+    error = None
+
+
+def listed(inv, what='sensors'):
+    """inv.sensors() must never raise; a check that only wants the list goes on with an empty one and reports .error."""
+    out = Listed()
+    try:
+        out.extend(getattr(inv, what)())
+    except BaseException as e:  # noqa: BLE001
+        out.error = f'{what}() raised {type(e).__name__}: {e}'
+    return out
